@@ -105,8 +105,11 @@ type c15Run struct {
 	moved bool
 }
 
+// c15DefaultSide is the default-sides expression for the scenario being evaluated ("" = built-in 100).
+var c15DefaultSide string
+
 func c15Eval(expr string, mode string, seed uint64, force func(int64) int64, m *Meter) c15Run {
-	cfg := CfgSpec{WoD: true, CoC: true, Fate: true, DC: true, Seeded: true, SeedA: seed, SeedB: seed ^ 0x77, Min: mode == "min", Max: mode == "max"}
+	cfg := CfgSpec{WoD: true, CoC: true, Fate: true, DC: true, Seeded: true, SeedA: seed, SeedB: seed ^ 0x77, Min: mode == "min", Max: mode == "max", DefaultSide: c15DefaultSide}
 	ResetGlobals(seed)
 	vm := cfg.NewVM()
 	before, _ := vm.GetCurSeed()
@@ -168,6 +171,28 @@ func c15Exec(raw json.RawMessage, res *RunResult) {
 
 func c15One(scp *C15Scenario, m *Meter, res *RunResult) {
 	sc := *scp
+	// all default-sides terms of one expression share the VM's default-sides expression
+	c15DefaultSide = ""
+	for i := range sc.Terms {
+		if sc.Terms[i].NoSides {
+			if sc.Terms[i].DefExpr && c15DefaultSide == "" {
+				c15DefaultSide = strconv.FormatInt(sc.Terms[i].Sides, 10)
+			}
+		}
+	}
+	for i := range sc.Terms {
+		if sc.Terms[i].NoSides {
+			t := sc.Terms[i]
+			if c15DefaultSide != "" {
+				t.Sides, _ = strconv.ParseInt(c15DefaultSide, 10, 64)
+				t.DefExpr = true
+			} else {
+				t.Sides, t.DefExpr = 100, false
+			}
+			sc.Terms[i] = t
+		}
+	}
+	defer func() { c15DefaultSide = "" }()
 	dg := &Digest{}
 	expr := sc.expr()
 	fams := map[string]bool{}
@@ -336,7 +361,7 @@ func c15Shrink(raw json.RawMessage) []json.RawMessage {
 func init() {
 	Register(&Check{
 		ID: "C15", Level: "exploration",
-		QuickRuns: 20000, ThoroughRuns: 1000000,
+		QuickRuns: 12000, ThoroughRuns: 600000,
 		Gen: c15Gen, Exec: c15Exec, Shrink: c15Shrink,
 		Rule: "one case = an expression sum(c_i * T_i) + c0 with non-negative constants over 1-3 non-exploding dice terms (XdY with every keep/drop/min/max combination from a boundary-biased grid, Fate, CoC bonus/penalty), evaluated in min-mode and max-mode (ledger: zero dice consume a generator; generator bytes unchanged), under 6 real seeded streams, and under forced die vectors (all lowest, all highest, alternating, CoC tens dice at '0'): every result must lie within [min-mode, max-mode]; for plain XdY terms all-lowest / all-highest faces must reproduce the min-mode / max-mode result exactly. distinct = distinct expressions; non-trivial = both modes evaluated to an int",
 		Real: []string{"VM dice instructions, Roll mode switch, RollCommon/RollCoC/RollFate"},
